@@ -40,6 +40,7 @@ type Server struct {
 	newMessageSignal       chan struct{}
 	newMessageSignalClosed bool
 	done                   chan struct{}
+	onceStart              sync.Once
 }
 
 // NewServer returns a new LocalMessageNotification server object
@@ -75,9 +76,18 @@ func NewServer(protoOptions protocol.ProtocolOptions, cfg *Config) *Server {
 		InitialState:        protocolStateIdle,
 	}
 	s.Protocol = protocol.New(protoConfig)
-	// Start background goroutine to clean up expired acknowledged IDs after Protocol is set
-	s.startExpirationCleaner()
 	return s
+}
+
+// Start starts the protocol and the background cleanup of expired acknowledged IDs
+func (s *Server) Start() {
+	s.onceStart.Do(func() {
+		s.Protocol.Start()
+		// The cleaner runs until the protocol is done, so it must only be started for a
+		// protocol instance that is actually running. A server object is created for every
+		// DMQ connection, including those where only the client side is ever started.
+		s.startExpirationCleaner()
+	})
 }
 
 // AddMessage adds a message to the notification queue
